@@ -242,9 +242,12 @@ class RejectsMixin:
         if n == "arith":
             return bad + 1 if step["rule"] not in ("pred_nonbool",) else bad
         if n == "case_branch":
-            return pdt.when(good_int >= 0).then(bad).otherwise(bad)
-        if n == "case_cond":
             return pdt.when(good_int >= 0).then(bad).otherwise(good_int)
+        if n == "case_cond":
+            # the offending construct sits in the CONDITION of the case expression
+            if step["rule"] in ("window_in_filter", "agg_in_filter", "window_in_summarize", "window_in_on", "unknown_C", "foreign_ref"):
+                return pdt.when(bad > 0).then(good_int).otherwise(0)
+            return pdt.when(good_int >= 0).then(bad).otherwise(bad)
         if n == "ctx_kwarg":
             return bad
         return bad
@@ -307,8 +310,12 @@ class RejectsMixin:
             return t >> pdt.join(o, bad, "inner")
         if rule == "window_in_filter":
             bad = c_int.shift(1, arrange=own_int)
+            if step["nest"] == "ctx_kwarg":  # condition of a case expression with constant branches
+                return t >> pdt.filter(pdt.when(bad > 0).then(True).otherwise(False))
             return t >> pdt.filter(nested(bad) > 0)
         if rule == "agg_in_filter":
+            if step["nest"] == "ctx_kwarg":
+                return t >> pdt.filter(pdt.when(c_int.max() > 0).then(own_int > 0).otherwise(False))
             return t >> pdt.filter(nested(c_int.max()) > 0)
         if rule == "window_in_summarize":
             return t >> pdt.summarize(**{new: nested(c_int.shift(1, arrange=own_int))})
